@@ -112,6 +112,9 @@ func (f *fix) oracleC05(i int, pre, post map[common.Address]funds, preInviter, p
 func (f *fix) oracleC04(i int, pre, post map[common.Address]funds) []Finding {
 	tx := f.txs[i]
 	var res []Finding
+	if tx.Type == types.DeployContractTx || tx.Type == types.CallContractTx || tx.Type == types.TerminateContractTx {
+		return nil // the harness's VM stand-in is not bound by the VM's obligations (VmOk); contracts are C15's
+	}
 	for _, p := range pre { // the statement is about states that satisfy the invariant before the transaction
 		if p.bal.Sign() < 0 || p.stake.Sign() < 0 || p.locked.Sign() < 0 || p.repl.Sign() < 0 || p.cstake.Sign() < 0 || p.locked.Cmp(p.stake) > 0 {
 			return nil
@@ -270,6 +273,10 @@ var typeKinds = map[string][]string{
 	"Unknown":          {"UnknownType"},
 }
 
+var zeroFeeTypes = map[string]bool{"SubmitFlip": true, "AnswersHash": true, "ShortAnswers": true, "LongAnswers": true, "Evidence": true,
+	"Activation": true, "Invite": true, "Kill": true}
+var ceremonialTypes = map[string]bool{"AnswersHash": true, "ShortAnswers": true, "LongAnswers": true, "Evidence": true}
+
 func loadReplay(path string) (*Case, error) {
 	b, err := os.ReadFile(path)
 	if err != nil {
@@ -418,7 +425,10 @@ func Run(c *hx.Ctx, props ...string) error {
 		}
 		return nil
 	}
-	n := c.Scale(2400, 60000)
+	n := c.Scale(7200, 120000)
+	if c.Tier == "search" {
+		n = 14400 // the widened search after a broken obligation: twice the quick tier per seed
+	}
 	hitKinds := map[string]map[string]bool{}
 	for i := 0; i < n; i++ {
 		t := uint16(i % 24)
@@ -456,7 +466,15 @@ func Run(c *hx.Ctx, props ...string) error {
 	sort.Strings(tn)
 	for _, t := range tn {
 		want := append([]string{}, typeKinds[t]...)
-		want = append(want, commonKinds...)
+		for _, k := range commonKinds {
+			if zeroFeeTypes[t] && (k == "InvalidMaxFee" || k == "BigFee") {
+				continue // the fee rate of these types is 0: the clauses cannot fire
+			}
+			if ceremonialTypes[t] && k == "LateTx" {
+				continue // clause :188 exempts ceremonial transactions
+			}
+			want = append(want, k)
+		}
 		want = append(want, "ok")
 		if t == "Unknown" {
 			want = append(append([]string{"UnknownType"}, commonKinds...))
